@@ -47,7 +47,7 @@ func genKeyGroup(r *hx.Rand) []keyReq {
 func runKeys(seed uint64, n int, tier string, out string, replay string) {
 	rnd := hx.NewRand(seed)
 	sum := hx.NewSummary("keys", seed)
-	sum.Rule = "one case = a group of 24 near-identical requests (methods GET/HEAD, hosts differing by port/one byte/empty, URIs differing by one byte, by query order, by trailing space or slash; 10% with empty RequestURI so URL.String() is used) run through the real getKey, plus one dispatcher run (size 8..24) over those keys rejection-sampled into a single shard with 150 mixed lookups/removals; non-trivial = the group contains two requests differing only in one component; distinct by the group's key bytes; plus 50 near-identical keys of 8-4000 bytes (last byte / middle byte / method / host differ) requested at random on a 16-slot store-backed dispatcher (constant eviction and rebuild from the persisted copy)"
+	sum.Rule = "one case = a group of 24 near-identical requests (methods GET/HEAD, hosts differing by port/one byte/empty, URIs differing by one byte, by query order, by trailing space or slash; 10% with empty RequestURI so URL.String() is used) run through the real getKey, plus one dispatcher run (size 8..24) over those keys rejection-sampled into a single shard with 150 mixed lookups/removals; non-trivial = the group contains two requests differing only in one component; distinct by the group's key bytes; plus 50 near-identical keys of 8-4000 bytes (last byte / middle byte / method / host / only letter case differ) requested at random on a 16-slot store-backed dispatcher (constant eviction and rebuild from the persisted copy); and 16 goroutines hashing 4000 keys at once must get the shard hash a single goroutine gets"
 	header := "From Coq Require Import List NArith ZArith.\nImport ListNotations.\nFrom Pike Require Import Base.Bytes Model.Key Model.Dispatcher Corr.C11Corr Corr.C06Corr.\nFrom PikeRun Require Import Consts.\n"
 	w := hx.NewCaseWriter(out, "keys", header, "list c06_case", "check_cases Consts.disp_consts", 12, sum)
 	distinct := hx.NewDistinct()
@@ -143,12 +143,67 @@ func runKeys(seed uint64, n int, tier string, out string, replay string) {
 	if crossServed != nil {
 		sum.ImplViolations = append(sum.ImplViolations, crossServed)
 	}
+	if v := hashStableUnderConcurrency(sum); v != nil {
+		sum.ImplViolations = append(sum.ImplViolations, v)
+	}
 	if v := longKeysWithStore(hx.NewRand(seed+77), 400+n*2, sum); v != nil {
 		sum.ImplViolations = append(sum.ImplViolations, v)
 	}
 	w.Flush()
 	sum.DistinctNontrivial = distinct.Len()
 	sum.Write(out)
+}
+
+// hashStableUnderConcurrency: the shard of a key is a function of the key alone — 16 goroutines hashing
+// 4000 keys at once must get the values a single goroutine gets (a request whose key hashes elsewhere
+// misses its resident entry: a second entry, a second fetch, another key's neighbourhood)
+func hashStableUnderConcurrency(sum *hx.Summary) map[string]interface{} {
+	var keys [][]byte
+	for k := 0; k < 4000; k++ {
+		keys = append(keys, []byte(fmt.Sprintf("GET hash%d.example /stable/%d?k=%d", k%7, k, k*31)))
+	}
+	want := make([]uint64, len(keys))
+	for i, k := range keys {
+		want[i] = cache.MemHash(k)
+	}
+	var wg sync.WaitGroup
+	var mu sync.Mutex
+	wrong := 0
+	first := ""
+	for g := 0; g < 16; g++ {
+		wg.Add(1)
+		go func(g int) {
+			defer wg.Done()
+			defer func() {
+				if r := recover(); r != nil {
+					mu.Lock()
+					wrong++
+					if first == "" {
+						first = fmt.Sprintf("panic while hashing: %v", r)
+					}
+					mu.Unlock()
+				}
+			}()
+			for round := 0; round < 3; round++ {
+				for i := g; i < len(keys); i += 1 + g%3 {
+					if h := cache.MemHash(keys[i]); h != want[i] {
+						mu.Lock()
+						wrong++
+						if first == "" {
+							first = fmt.Sprintf("MemHash(%q) = %d under concurrency, %d alone", keys[i], h, want[i])
+						}
+						mu.Unlock()
+					}
+				}
+			}
+		}(g)
+	}
+	wg.Wait()
+	sum.Count("concurrent-hash-check")
+	if wrong > 0 {
+		return map[string]interface{}{"property": "C06+C01", "kind": "shard-hash-differs-under-concurrency", "count": wrong, "first": first, "same_key": "the key's shard depends on what other requests do at the same time"}
+	}
+	return nil
 }
 
 // memStore: in-memory store.Store (copies what it is given)
@@ -206,6 +261,9 @@ func longKeysWithStore(rnd *hx.Rand, nreq int, sum *hx.Summary) map[string]inter
 			kreq{"GET", "long.example", string(mid) + "1"}, kreq{"HEAD", "long.example", base + "1"},
 			kreq{"GET", "lonh.example", base + "1"})
 	}
+	// keys that differ only in letter case (path and query are case-sensitive)
+	keys = append(keys, kreq{"GET", "long.example", "/Docs/Readme?Page=A"}, kreq{"GET", "long.example", "/docs/readme?page=a"},
+		kreq{"GET", "long.example", "/DOCS/README?PAGE=A"}, kreq{"GET", "long.example", "/docs/readme?page=A"})
 	wrong, hits := 0, 0
 	var first string
 	for i := 0; i < nreq; i++ {
@@ -241,7 +299,7 @@ func longKeysWithStore(rnd *hx.Rand, nreq int, sum *hx.Summary) map[string]inter
 	sum.Distribution["longkey_requests"] = nreq
 	sum.Distribution["longkey_hits"] = hits
 	if wrong > 0 {
-		return map[string]interface{}{"property": "C06", "kind": "cross-served-long-keys", "count": wrong, "first": first, "same_key": "cross-served after reload from the store"}
+		return map[string]interface{}{"property": "C06+C08", "kind": "cross-served-long-keys", "count": wrong, "first": first, "same_key": "cross-served after reload from the store"}
 	}
 	return nil
 }
